@@ -1,9 +1,13 @@
 /* algob: the BOUNDED (kind B) part of C06 — algorithms whose invariants are permutation- or nested-loop-shaped, the numeric
- * transform_reduce, and the iterator adaptors.  Every sequence up to length L (4 quick, 6 thorough; the length, every split point
- * and every count are symbolic), ALL element values symbolic over int, full unwinding.  Postconditions are the [alg.*] clauses,
- * stated without re-running the algorithm where a closed form exists (rotate, shift, merge: final position of every element),
- * against a plain reference loop otherwise (search family, set operations).  Output ranges are exact-fit heap objects.
- * The body of every harness is a macro B_<NAME>(L, ...) so that the quick group and its tier=thorough twin share one text. */
+ * transform_reduce, and the iterator adaptors.  Every sequence up to length L (see bound= of each group; the length, every split point
+ * and every count are symbolic), ALL element values symbolic over int (except the a % 3 comparator groups, see WIN), full unwinding.
+ * Postconditions are the [alg.*] clauses: a closed form where one exists (rotate, shift, merge, inplace_merge: the final position of
+ * every element; sorts: sorted + permutation via a ghost value or element tags + stability), a plain reference loop otherwise (search
+ * family, includes, set operations).  Element identity (stability, "taken from range 1") is observed through a {key,tag} struct
+ * (stable_sort, insertion_sort) or through tagged ints (key = x >> 4, tag = x & 15; merges, set operations, stable_partition, merge_sort).
+ * Single-range algorithms run on exact-fit heap objects (SPLIT / MK); two-range algorithms on start-aligned blocks (EMK / TAIL).
+ * The body of every harness is a macro B_<NAME>(L, ...) so that the quick group and its tier=thorough twin share one text.
+ * solver=kissat everywhere: MiniSat needs minutes (or 30+ GB) on these permutation-shaped instances. */
 #include "vf_handler.h"
 typedef unsigned long ul;
 typedef struct vf_kt KT;
@@ -127,14 +131,14 @@ static _Bool pred1(int p, int x) { return p == 0 ? (x & 3) == 0 : (p == 1 ? x < 
 /* partial_sort: [first,middle) sorted and no element of [middle,last) less than any of them; nth_element: nothing in [nth,last) is
  * less than anything in [first,nth], i.e. a[nth] is the element a full sort would put there */
 #define B_PARTIAL_SORT(L, CLO, CHI) { LEN(n, L); SEL(c, CLO, CHI); VF_INPUT(unsigned char, m); VF_ASSUME(m <= n); VF_INPUT(int, g); IN(int, a, L); WIN(c == 3, a_in, L, ); \
-  SPLIT(c, 3) SPLIT(n, L) SPLIT(m, L) { MK(int, a, n, L); \
+  SPLIT(c, 3) SPLIT(n, L) { MK(int, a, n, L); \
     a_partial_sort(a, a + m, a + n, c); \
     PERM_G(L, n) \
     FORK(k, (L) - 1, m - 1) VF_ASSERT(!lt(c, a[k + 1], a[k]), "partial_sort: [first, middle) is sorted"); \
     FORK(i, L, m) FORK(j, L, n) if (j >= m) VF_ASSERT(!lt(c, a[j], a[i]), "partial_sort: no element of [middle, last) is less than an element of [first, middle)"); } \
   VF_REACH(); }
 #define B_NTH_ELEMENT(L, CLO, CHI) { LEN(n, L); SEL(c, CLO, CHI); VF_INPUT(unsigned char, m); VF_ASSUME(m <= n); VF_INPUT(int, g); IN(int, a, L); WIN(c == 3, a_in, L, ); \
-  SPLIT(c, 3) SPLIT(n, L) SPLIT(m, L) { MK(int, a, n, L); \
+  SPLIT(c, 3) SPLIT(n, L) { MK(int, a, n, L); \
     a_nth_element(a, a + m, a + n, c); \
     PERM_G(L, n) \
     FORK(i, L, n) FORK(j, L, n) if (i <= m && j >= m && i < j) VF_ASSERT(!lt(c, a[j], a[i]), "nth_element: for i in [first, nth], j in [nth, last): !(a[j] < a[i])"); } \
@@ -319,8 +323,8 @@ void h_sort_mod3(void) B_SORT(3, a_sort, 3, 3, 0)
 void h_sort_mod3_t(void) B_SORT(4, a_sort, 3, 3, 0)
 /*@GROUP name=gnome_sort props=C06,C02 kind=B bound=len<=3 unwind=12 solver=kissat objbits=12 timeout=600@*/
 void h_gnome_sort(void) B_SORT(3, a_gnome_sort, 0, 2, 0)
-/*@GROUP name=gnome_sort_t props=C06,C02 kind=B bound=len<=5 unwind=28 solver=kissat tier=thorough objbits=13 timeout=3000@*/
-void h_gnome_sort_t(void) B_SORT(5, a_gnome_sort, 0, 2, 0)
+/*@GROUP name=gnome_sort_t props=C06,C02 kind=B bound=len<=4 unwind=19 solver=kissat tier=thorough objbits=13 timeout=3000@*/
+void h_gnome_sort_t(void) B_SORT(4, a_gnome_sort, 0, 2, 0)
 /*@GROUP name=gnome_sort_bidi props=C06,C02 kind=B bound=len<=3 unwind=12 solver=kissat objbits=12 timeout=600@*/
 void h_gnome_sort_bidi(void) B_SORT(3, a_gnome_sort_bidi, 0, 2, 0)
 /*@GROUP name=gnome_sort_bidi_t props=C06,C02 kind=B bound=len<=4 unwind=19 solver=kissat tier=thorough objbits=13 timeout=3000@*/
@@ -478,8 +482,13 @@ typedef struct etl_static_vector_int_4 V4;
 #define V4SZ(v) ((v).b0._size)
 #define V4EL(v, i) ((v).b0._data._buf[i])
 #define POS(i) VF_INPUT(unsigned char, i); VF_ASSUME(i <= 8)
+#define B_FRONT_COPY(C) { VF_INPUT(struct vf_front_box, b); LEN(c, C); IN(int, s, 4); VF_ASSUME(V4SZ(b.v) <= 4 && V4SZ(b.v) + c <= 4); V4 o = b.v; int n0 = V4SZ(b.v); \
+  SPLIT(c, C) SPLIT(n0, 4) { MK(int, s, c, 4); i_front_copy(&b, s, s + c); \
+    VF_ASSERT(V4SZ(b.v) == n0 + c, "copy(first, last, front_inserter(c)) prepends last - first elements"); \
+    FORK(k, 4, n0 + c) VF_ASSERT(V4EL(b.v, k) == (k < c ? s_in[c - 1 - k] : V4EL(o, k - c)), "copy(first, last, front_inserter(c)): the source range reversed, then the old elements"); } \
+  VF_REACH(); }
 
-/*@GROUP name=reverse_iterator props=C06,C02 kind=F unwind=2@*/
+/*@GROUP name=reverse_iterator props=C06,C02 kind=F unwind=2 timeout=600@*/
 void h_reverse_iterator(void) { VF_INPUT_ARR(int, a, 8); POS(i); POS(j); VF_INPUT(signed char, d); int *p = a + i, *q = a + j, *res;
   VF_ASSERT(ri_base(p) == p && ri_make(p) == p && ri_convert(p) == p && ri_convert_assign(p, q) == p, "reverse_iterator(x).base() == x; make_reverse_iterator; converting construction / assignment copy base()");
   VF_ASSERT(ri_default_base() == 0, "reverse_iterator() value-initialises current");
@@ -492,7 +501,7 @@ void h_reverse_iterator(void) { VF_INPUT_ARR(int, a, 8); POS(i); POS(j); VF_INPU
   VF_ASSERT(ri_diff(p, q) == j - i, "r1 - r2 == r2.base() - r1.base()");
   VF_REACH(); }
 
-/*@GROUP name=reverse_iterator_cmp props=C06,C02 kind=F unwind=2@*/
+/*@GROUP name=reverse_iterator_cmp props=C06,C02 kind=F unwind=2 timeout=600@*/
 void h_reverse_iterator_cmp(void) { VF_INPUT_ARR(int, a, 8); POS(i); POS(j); int *p = a + i, *q = a + j;
   VF_KNOWN(C06_reverse_iterator_relational, i != j);
   unsigned r = ri_cmp(p, q);
@@ -500,7 +509,7 @@ void h_reverse_iterator_cmp(void) { VF_INPUT_ARR(int, a, 8); POS(i); POS(j); int
   VF_ASSERT(((r & 4u) != 0) == (i > j) && ((r & 8u) != 0) == (i >= j) && ((r & 16u) != 0) == (i < j) && ((r & 32u) != 0) == (i <= j), "[reverse.iter.cmp]: x < y iff x.base() > y.base(), x <= y iff x.base() >= y.base(), x > y iff x.base() < y.base(), x >= y iff x.base() <= y.base()");
   VF_REACH(); }
 
-/*@GROUP name=reverse_iterator_copy props=C06,C02 kind=B bound=len<=6 unwind=9@*/
+/*@GROUP name=reverse_iterator_copy props=C06,C02 kind=B bound=len<=6 unwind=9 timeout=600@*/
 void h_reverse_iterator_copy(void) { LEN(n, 6); IN(int, a, 6);
   SPLIT(n, 6) { MK(int, a, n, 6); OUT(int, d, n);
     int *r = ri_copy(a, a + n, d);
@@ -508,7 +517,7 @@ void h_reverse_iterator_copy(void) { LEN(n, 6); IN(int, a, 6);
     FORK(k, 6, n) VF_ASSERT(d[k] == a_in[n - 1 - k], "a range of reverse_iterators traverses the elements backwards"); }
   VF_REACH(); }
 
-/*@GROUP name=back_insert_iterator props=C06,C02,C05 kind=K unwind=7@*/
+/*@GROUP name=back_insert_iterator props=C06,C02,C05 kind=K unwind=7 timeout=600@*/
 void h_back_insert_iterator(void) { VF_INPUT(V4, v); VF_INPUT(int, x); VF_INPUT(unsigned char, which); LEN(c, 4); IN(int, s, 4); VF_ASSUME(V4SZ(v) <= 4); V4 o = v; unsigned n0 = V4SZ(v);
   if (which <= 1) { VF_ASSUME(n0 < 4); if (which == 0) i_back_insert(&v, &x); else i_back_insert_rv(&v, x);
     VF_ASSERT(V4SZ(v) == n0 + 1 && V4EL(v, n0) == x, "*it = x (copy and move overload) is c.push_back(x); *it, ++it, it++ are no-ops");
@@ -518,17 +527,19 @@ void h_back_insert_iterator(void) { VF_INPUT(V4, v); VF_INPUT(int, x); VF_INPUT(
     FORK(k, 4, n0 + c) VF_ASSERT(V4EL(v, k) == (k < (int)n0 ? V4EL(o, k) : s_in[k - n0]), "copy(first, last, back_inserter(c)): old elements, then the source range in order"); } }
   VF_REACH(); }
 
-/*@GROUP name=front_insert_iterator props=C06,C02,C05 kind=K unwind=7 solver=kissat@*/
-void h_front_insert_iterator(void) { VF_INPUT(struct vf_front_box, b); VF_INPUT(int, x); VF_INPUT(unsigned char, which); LEN(c, 4); IN(int, s, 4); VF_ASSUME(V4SZ(b.v) <= 4); V4 o = b.v; unsigned n0 = V4SZ(b.v);
-  if (which <= 1) { VF_ASSUME(n0 < 4); if (which == 0) i_front_insert(&b, &x); else i_front_insert_rv(&b, x);
+/*@GROUP name=front_insert_iterator props=C06,C02,C05 kind=K unwind=7 solver=kissat timeout=600@*/
+void h_front_insert_iterator(void) { VF_INPUT(struct vf_front_box, b); VF_INPUT(int, x); VF_INPUT(unsigned char, which); VF_ASSUME(which <= 1 && V4SZ(b.v) < 4); V4 o = b.v; int n0 = V4SZ(b.v);
+  SPLIT(which, 1) SPLIT(n0, 3) { if (which == 0) i_front_insert(&b, &x); else i_front_insert_rv(&b, x);
     VF_ASSERT(V4SZ(b.v) == n0 + 1 && V4EL(b.v, 0) == x, "*it = x (copy and move overload) is c.push_front(x); *it, ++it, it++ are no-ops");
     FORK(k, 4, n0) VF_ASSERT(V4EL(b.v, k + 1) == V4EL(o, k), "front_insert_iterator keeps the existing elements behind the new one"); }
-  else { VF_ASSUME(n0 + c <= 4); SPLIT(c, 4) { MK(int, s, c, 4); i_front_copy(&b, s, s + c);
-    VF_ASSERT(V4SZ(b.v) == n0 + c, "copy(first, last, front_inserter(c)) prepends last - first elements");
-    FORK(k, 4, n0 + c) VF_ASSERT(V4EL(b.v, k) == (k < c ? s_in[c - 1 - k] : V4EL(o, k - c)), "copy(first, last, front_inserter(c)): the source range reversed, then the old elements"); } }
   VF_REACH(); }
 
-/*@GROUP name=iter_ops_ptr props=C06,C02 kind=F unwind=2@*/
+/*@GROUP name=front_insert_copy props=C06,C02,C05 kind=B bound=count<=2 unwind=7 solver=kissat objbits=13 timeout=900@*/
+void h_front_insert_copy(void) B_FRONT_COPY(2)
+/*@GROUP name=front_insert_copy_t props=C06,C02,C05 kind=K unwind=7 solver=kissat objbits=13 timeout=3000 tier=thorough@*/
+void h_front_insert_copy_t(void) B_FRONT_COPY(4)
+
+/*@GROUP name=iter_ops_ptr props=C06,C02 kind=F unwind=2 timeout=600@*/
 void h_iter_ops_ptr(void) { VF_INPUT_ARR(int, a, 8); POS(i); POS(j); VF_INPUT(signed char, d); int *p = a + i, *q = a + j;
   if (-d <= i && i + d <= 8) { VF_ASSERT(it_next(p, d) == p + d && it_advance(p, d) == p + d && it_advance_int(p, d) == p + d, "next(it, n) / advance(it, n) on a random access iterator: it + n (n may be negative)"); }
   if (d <= i && i - d <= 8) { VF_ASSERT(it_prev(p, d) == p - d, "prev(it, n) == it - n"); }
@@ -537,7 +548,7 @@ void h_iter_ops_ptr(void) { VF_INPUT_ARR(int, a, 8); POS(i); POS(j); VF_INPUT(si
   VF_ASSERT(it_distance(p, q) == j - i, "distance(first, last) == last - first for random access iterators (may be negative)");
   VF_REACH(); }
 
-/*@GROUP name=iter_ops_wrapped props=C06,C02 kind=B bound=|n|<=8 unwind=11@*/
+/*@GROUP name=iter_ops_wrapped props=C06,C02 kind=B bound=|n|<=8 unwind=11 timeout=600@*/
 void h_iter_ops_wrapped(void) { VF_INPUT_ARR(int, a, 8); POS(i); POS(j); VF_INPUT(signed char, d); int *p = a + i, *q = a + j;
   if (d >= 0 && i + d <= 8) { VF_ASSERT(it_next_fwd(p, d) == p + d && it_advance_fwd(p, d) == p + d, "next / advance on a forward iterator: n increments"); }
   if (-d <= i && i + d <= 8) { VF_ASSERT(it_next_bidi(p, d) == p + d && it_advance_bidi(p, d) == p + d, "next / advance on a bidirectional iterator: n increments or -n decrements"); }
